@@ -17,8 +17,16 @@ pub struct C14;
 
 pub const OBS: &[&str] = &["source", "buffer", "size", "rope", "map(true)", "map(false)", "stream(true)", "stream(false)", "hash", "clone", "eq-self", "Debug"];
 
+/// how the second operand of a `SharedMap` pair differs: a setter called on a *clone* of the
+/// first operand's SourceMap (so both maps share their reference-counted payload)
+pub const SETTERS: &[&str] = &["none", "file", "sourceRoot", "debugId", "sources", "sourcesContent", "names"];
+
 #[derive(Clone, Debug, Serialize, Deserialize)]
 pub struct Case {
+  /// Some((setter index, wrapper 0..4)): x must be a SourceMapSource leaf; y is built from a clone of
+  /// x's SourceMap object with one setter applied, both wrapped the same way
+  #[serde(default)]
+  pub shared_map: Option<(u8, u8)>,
   pub x: Spec,
   /// selector of the edit that turns x into y (None: y is built from the same Spec)
   pub edit: Option<u16>,
@@ -43,8 +51,73 @@ fn strategy() -> BoxedStrategy<Case> {
     vec(0u8..OBS.len() as u8, 0..=5),
     prop_oneof![2 => Just(vec![]), 1 => vec(0u8..OBS.len() as u8, 0..=4)],
   )
-    .prop_map(|(x, edit, hx, hy)| Case { x, edit, hx, hy })
+    .prop_map(|(x, edit, hx, hy)| Case { shared_map: None, x, edit, hx, hy })
     .boxed()
+}
+
+fn shared_map_strategy() -> BoxedStrategy<Case> {
+  let cfg = cfg();
+  (crate::gen::text(true, 8), crate::gen::abs_map(cfg), 0u8..SETTERS.len() as u8, 0u8..4u8, vec(0u8..OBS.len() as u8, 0..=3))
+    .prop_map(move |(text, am, setter, wrap, hx)| {
+      let map = crate::gen::concretize_map(&text, &am, true);
+      Case { shared_map: Some((setter, wrap)), x: Spec::Sms { text, name: "g.js".into(), map }, edit: None, hx, hy: vec![] }
+    })
+    .boxed()
+}
+
+/// the pair of a `SharedMap` case: y's SourceMap is a clone of x's with one setter applied
+fn shared_pair(case: &Case, setter: u8, wrap: u8) -> Option<(BoxSource, BoxSource, bool)> {
+  use rspack_sources::{CachedSource, ConcatSource, RawSource, ReplaceSource, SourceExt, SourceMapSource, WithoutOriginalOptions};
+  let Spec::Sms { text, name, map } = &case.x else { return None };
+  let m1 = crate::build::source_map(map);
+  let mut m2 = m1.clone();
+  let changed = match SETTERS[setter as usize] {
+    "none" => false,
+    "file" => {
+      m2.set_file(Some("other.js"));
+      true
+    }
+    "sourceRoot" => {
+      m2.set_source_root(Some("elsewhere"));
+      true
+    }
+    "debugId" => {
+      m2.set_debug_id(Some("ffff-0000"));
+      true
+    }
+    "sources" => {
+      let mut v = m1.sources().to_vec();
+      v.push("added.js".into());
+      m2.set_sources(v);
+      true
+    }
+    "sourcesContent" => {
+      let mut v = m1.sources_content().to_vec();
+      v.push("added".into());
+      m2.set_sources_content(v);
+      true
+    }
+    _ => {
+      let mut v = m1.names().to_vec();
+      v.push("added".into());
+      m2.set_names(v);
+      true
+    }
+  };
+  let mk = |m: rspack_sources::SourceMap| -> BoxSource {
+    let s = SourceMapSource::new(WithoutOriginalOptions { value: text.clone(), name: name.clone(), source_map: m });
+    match wrap {
+      0 => s.boxed(),
+      1 => CachedSource::new(s).boxed(),
+      2 => ConcatSource::new([s.boxed(), RawSource::from("x").boxed()]).boxed(),
+      _ => {
+        let mut r = ReplaceSource::new(s);
+        r.insert(0, "/**/", None);
+        r.boxed()
+      }
+    }
+  };
+  Some((mk(m1), mk(m2), changed))
 }
 
 /// everything observable about a source, as comparable data.
@@ -144,7 +217,13 @@ impl Prop for C14 {
      observers repeatable. Non-trivial: a non-empty history on exactly one operand; distinct by hash of the case JSON".into()
   }
   fn legs(&self, _tier: Tier) -> Vec<Leg<Case>> {
-    vec![Leg { name: "pairs", source: Cases::Generated(Box::new(strategy), 300_000, 4_000_000) }]
+    vec![
+      Leg { name: "pairs", source: Cases::Generated(Box::new(strategy), 300_000, 4_000_000) },
+      Leg {
+        name: "SourceMapSource pairs whose maps share their payload (clone + setter)",
+        source: Cases::Generated(Box::new(shared_map_strategy), 30_000, 400_000),
+      },
+    ]
   }
   fn check(&self, case: &Case) -> CheckResult {
     let r = guard(|| -> Result<CaseInfo, String> {
@@ -158,10 +237,17 @@ impl Prop for C14 {
           }
         }
       };
-      let same_spec = ys == *xs;
-      let exact = !xs.has_cached() && !ys.has_cached();
-      let x = build(xs);
-      let y = build(&ys);
+      let mut same_spec = ys == *xs;
+      let mut exact = !xs.has_cached() && !ys.has_cached();
+      let (x, y) = match case.shared_map {
+        Some((setter, wrap)) => {
+          let (x, y, changed) = shared_pair(case, setter, wrap).ok_or("harness: shared_map case needs an Sms leaf")?;
+          same_spec = !changed;
+          exact = wrap != 1;
+          (x, y)
+        }
+        None => (build(xs), build(&ys)),
+      };
       // before any observer
       let eq0 = *x == *y;
       if eq0 != (*y == *x) {
@@ -204,6 +290,14 @@ impl Prop for C14 {
         if ox != oy {
           return Err(format!("x == y ({kind}) but an observer answers differently: {:?} vs {:?}", ox.source, oy.source));
         }
+      }
+      if case.shared_map.is_some() {
+        return Ok(
+          CaseInfo::nt(!case.hx.is_empty())
+            .class(true, "maps sharing their payload")
+            .class(eq0, "shared-payload pair compares equal")
+            .class(!eq0, "shared-payload pair compares unequal"),
+        );
       }
       // a fresh, never observed build still equals the observed one
       let fresh = build(xs);
